@@ -1,16 +1,211 @@
 package main
 
+// Monitors: data guarded by a mutex. Declared in contract files:
+//
+//   //@ monitor (c *Connection) stateMut guards state
+//   //@   invariant 1 <= c.state && c.state <= 4
+//   //@   history   c.state >= old(c.state)
+//
+// Thread-modular semantics (sound for every interleaving if every writer of a
+// guarded field is verified): acquiring the lock havocs the guarded fields and
+// assumes the invariant (other threads may have run); releasing a write lock
+// asserts the invariant and the two-state history clause relative to the
+// values seen at acquisition; any access to a guarded field while the lock is
+// not held is an obligation failure (#guarded).
+
 import (
+	"fmt"
+	"os"
+	"go/types"
+	"strings"
+
 	"golang.org/x/tools/go/ssa"
 )
 
-// Monitor declarations (filled in by the contract parser; see DESIGN §3.7).
 type Monitor struct {
-	Name string
+	Name      string // "Connection.stateMut"
+	Self      string // receiver variable name in clauses
+	RootT     string // type name (unqualified) of the owning struct
+	Pkg       *types.Package
+	MutexPath string   // field path of the mutex inside the struct ("stateMut", "mutable.RWMutex", "RWMutex")
+	Guards    []string // guarded field paths ("state", "mutable.state")
+	Invariant []*Clause
+	History   []*Clause
+	rootType  types.Type
+}
+
+func (e *Engine) resolveMonitors() error {
+	for _, m := range e.monitors {
+		obj := m.Pkg.Scope().Lookup(m.RootT)
+		tn, ok := obj.(*types.TypeName)
+		if !ok {
+			return fmt.Errorf("monitor %s: unknown type %s", m.Name, m.RootT)
+		}
+		m.rootType = tn.Type()
+		for _, cl := range append(append([]*Clause{}, m.Invariant...), m.History...) {
+			sp, err := parseSpec(cl.Text)
+			if err != nil {
+				return fmt.Errorf("monitor %s: %v", m.Name, err)
+			}
+			cl.Expr = sp
+		}
+	}
+	return nil
+}
+
+// monitorForMutex finds the monitor whose mutex is at address a.
+func (fc *FnCtx) monitorForMutex(a *Addr) *Monitor {
+	if a.Kind != AObj {
+		return nil
+	}
+	p, _ := pathName(a.Root, a.Path)
+	for _, m := range fc.eng.monitors {
+		if types.Identical(a.Root, m.rootType) && (p == m.MutexPath || p == m.MutexPath+".RWMutex" || p == m.MutexPath+".Mutex") {
+			return m
+		}
+	}
+	return nil
+}
+
+func (fc *FnCtx) monitorsGuarding(a *Addr) []*Monitor {
+	if a.Kind != AObj || len(a.Path) == 0 {
+		return nil
+	}
+	p, _ := pathName(a.Root, a.Path)
+	var out []*Monitor
+	for _, m := range fc.eng.monitors {
+		if !types.Identical(a.Root, m.rootType) {
+			continue
+		}
+		for _, g := range m.Guards {
+			if p == g || strings.HasPrefix(p, g+".") {
+				out = append(out, m)
+			}
+		}
+	}
+	return out
+}
+
+func lockKey(m *Monitor, base string) string { return m.Name + "@" + base }
+
+func (fc *FnCtx) selfVal(m *Monitor, base string) Val {
+	return Val{K: KAddr, T: types.NewPointer(m.rootType), A: &Addr{Kind: AObj, Base: base, Root: m.rootType, T: m.rootType}}
+}
+
+func (fc *FnCtx) guardAddrs(m *Monitor, base string) []*Addr {
+	var out []*Addr
+	for _, g := range m.Guards {
+		a := &Addr{Kind: AObj, Base: base, Root: m.rootType, T: m.rootType}
+		t := m.rootType
+		ok := true
+		for _, name := range strings.Split(g, ".") {
+			st := structOf(t)
+			if st == nil {
+				ok = false
+				break
+			}
+			found := false
+			for i := 0; i < st.NumFields(); i++ {
+				if st.Field(i).Name() == name {
+					a.Path = append(a.Path, i)
+					t = st.Field(i).Type()
+					found = true
+					break
+				}
+			}
+			if !found {
+				ok = false
+				break
+			}
+		}
+		if !ok {
+			unsup("monitor %s: cannot resolve guarded field %s", m.Name, g)
+		}
+		a.T = t
+		out = append(out, a)
+	}
+	return out
 }
 
 func (fc *FnCtx) lockOp(fr *Frame, st *State, reach string, op string, mu Val, call ssa.CallInstruction) {
-	fc.assumption("A-LOCK: mutex operations have no effect on the sequential state (monitor invariants are declared separately)")
+	if mu.K != KAddr {
+		return
+	}
+	m := fc.monitorForMutex(mu.A)
+	if m == nil {
+		fc.assumption("A-LOCK: operations on mutexes without a declared monitor have no effect on the sequential state")
+		return
+	}
+	base := mu.A.Base
+	key := lockKey(m, base)
+	acquire := strings.HasSuffix(op, ".Lock") || strings.HasSuffix(op, ".RLock")
+	write := strings.HasSuffix(op, ".Lock") || strings.HasSuffix(op, ".Unlock")
+	self := fc.selfVal(m, base)
+	vars := map[string]Val{m.Self: self}
+	if acquire {
+		// other threads may have changed the guarded data: havoc, then assume the invariant
+		for _, a := range fc.guardAddrs(m, base) {
+			if _, isMap := a.T.Underlying().(*types.Map); isMap {
+				// the map reference itself is stable; its contents are havocked
+				mv := fc.load(st, a)
+				fc.havocMap(st, mv, a.T.Underlying().(*types.Map))
+				continue
+			}
+			fc.havocAddr(st, a)
+		}
+		for _, cl := range m.Invariant {
+			env := fc.specEnv(st, nil, vars, m.Pkg, nil, cl.Text)
+			fc.sc.assume(tImp(reach, env.evalBool(cl.Expr)))
+		}
+		st.locks[key] = "true"
+		if write {
+			if st.lockSnap == nil {
+				st.lockSnap = map[string]*State{}
+			}
+			st.lockSnap[key] = st.clone()
+		}
+		return
+	}
+	// release
+	if write {
+		for _, cl := range m.Invariant {
+			env := fc.specEnv(st, nil, vars, m.Pkg, nil, cl.Text)
+			fc.oblige(fr, "monitor-invariant", m.Name+": "+clauseName(cl), reach, env.evalBool(cl.Expr), env.quant, nil)
+		}
+		if snap := st.lockSnap[key]; snap != nil {
+			for _, cl := range m.History {
+				env := fc.specEnv(st, snap, vars, m.Pkg, nil, cl.Text)
+				fc.oblige(fr, "monitor-history", m.Name+": "+clauseName(cl), reach, env.evalBool(cl.Expr), env.quant, nil)
+			}
+		} else if len(m.History) > 0 {
+			// unlock of a lock acquired by the caller (requires locked(...)): history relative to function entry
+			for _, cl := range m.History {
+				env := fc.specEnv(st, fc.oldSt, vars, m.Pkg, nil, cl.Text)
+				fc.oblige(fr, "monitor-history", m.Name+": "+clauseName(cl), reach, env.evalBool(cl.Expr), env.quant, nil)
+			}
+		}
+	}
+	st.locks[key] = "false"
 }
 
-func (fc *FnCtx) guardedAccess(fr *Frame, st *State, reach string, a *Addr, write bool) {}
+// guardedAccess: reading or writing a guarded field requires the lock.
+func (fc *FnCtx) guardedAccess(fr *Frame, st *State, reach string, a *Addr, write bool) {
+	if fc.quiet > 0 || fc.freshObj[a.Base] {
+		return
+	}
+	for _, m := range fc.monitorsGuarding(a) {
+		held := st.locks[lockKey(m, a.Base)]
+		if held == "" {
+			held = "false"
+		}
+		if os.Getenv("GOVC_TRACE") != "" {
+			fmt.Fprintf(os.Stderr, "guarded %s key=%s held=%s locks=%v\n", fr.prefix, lockKey(m, a.Base), held, st.locks)
+		}
+		p, _ := pathName(a.Root, a.Path)
+		kind := "read"
+		if write {
+			kind = "write"
+		}
+		fc.oblige(fr, "guarded", fmt.Sprintf("%s of %s.%s needs %s", kind, m.RootT, p, m.Name), reach, held, false, nil)
+	}
+}
